@@ -96,7 +96,10 @@ def hostile_spec(draw, tier):
         "subset_lead": draw(st.sampled_from(LEADS)),
         # an external identifier on a DOCTYPE that also has an internal subset
         "extid": draw(st.sampled_from([None, None, "SYSTEM", "PUBLIC"])),
-        "handle": draw(st.sampled_from(["str", "str", "bytes-utf8", "bytes-utf8-bom", "bytes-utf16", "file-text", "file-bytes"])),
+        "handle": draw(st.sampled_from(["str", "str", "bytes-utf8", "bytes-utf8-bom", "bytes-utf16", "file-text", "file-bytes", "stream-text", "stream-bytes"])),
+        # Parallels keeps the previous descriptor as DiskDescriptor.xml.Backup: here the primary is empty or cut short and the
+        # generated document is the backup
+        "hdd_backup": draw(st.sampled_from([None, None, None, "empty", "cut"])),
         # what the XML declaration of a document handed over as *text* says about its (former) byte encoding: irrelevant for text
         "decl_encoding": draw(st.sampled_from([None, None, None, "ISO-8859-1", "UTF-16", "windows-1252", "US-ASCII"])),
         "alt_ns": draw(st.sampled_from([None, None, None, "http://www.innotek.de/VirtualBox-settings", "urn:example:other"])),
@@ -230,10 +233,29 @@ def _with_marker(b, use):
     return b
 
 
+class _ForwardOnly(io.RawIOBase):
+    """A raw stream that can only be read forwards (a pipe, a socket, a member of an archive being streamed)."""
+
+    def __init__(self, data: bytes):
+        self._d, self._p = data, 0
+
+    def readable(self):
+        return True
+
+    def seekable(self):
+        return False
+
+    def readinto(self, b):
+        n = min(len(b), len(self._d) - self._p)
+        b[:n] = self._d[self._p : self._p + n]
+        self._p += n
+        return n
+
+
 def encode(text, handle):
-    if handle in ("str", "file-text"):
+    if handle in ("str", "file-text", "stream-text"):
         return text
-    if handle in ("bytes-utf8", "file-bytes"):
+    if handle in ("bytes-utf8", "file-bytes", "stream-bytes"):
         return text.encode("utf-8")
     if handle == "bytes-utf8-bom":
         return b"\xef\xbb\xbf" + text.encode("utf-8")
@@ -282,7 +304,13 @@ def check(spec) -> Outcome:
                         f.write(harmless)
                     HDD(Path(root))
                 data = encode(text, spec["handle"])
-                with open(os.path.join(root, "DiskDescriptor.xml"), "wb" if isinstance(data, bytes) else "w") as f:
+                target = "DiskDescriptor.xml"
+                if spec.get("hdd_backup") and not spec.get("benign_first"):
+                    raw_ = data if isinstance(data, bytes) else data.encode("utf-8")
+                    with open(os.path.join(root, "DiskDescriptor.xml"), "wb") as f:
+                        f.write(b"" if spec["hdd_backup"] == "empty" else raw_[: len(raw_) // 2])
+                    target = "DiskDescriptor.xml.Backup"
+                with open(os.path.join(root, target), "wb" if isinstance(data, bytes) else "w") as f:
                     f.write(data)
                 h = HDD(Path(root))
                 return h.descriptor.xml, [im.file for s in h.descriptor.storage_data.storages for im in s.images]
@@ -301,7 +329,11 @@ def check(spec) -> Outcome:
                     return xml, list(obj.disks())
             finally:
                 shutil.rmtree(d, ignore_errors=True)
-        fh = io.StringIO(payload) if isinstance(payload, str) else io.BytesIO(payload)
+        if spec["handle"].startswith("stream-"):
+            raw = _ForwardOnly(payload.encode("utf-8") if isinstance(payload, str) else payload)
+            fh = io.TextIOWrapper(io.BufferedReader(raw), encoding="utf-8") if spec["handle"] == "stream-text" else io.BufferedReader(raw)
+        else:
+            fh = io.StringIO(payload) if isinstance(payload, str) else io.BytesIO(payload)
         obj = _parse(entry, fh)
         xml = getattr(obj, "xml", None) or getattr(obj, "_xml", None)
         return xml, list(obj.disks())
@@ -333,6 +365,9 @@ def check(spec) -> Outcome:
             out.fail(f"accepted|{entry}|{spec['prolog']}" + ("|leak" if leaked else ""),
                      f"document declaring an entity ({spec['prolog']}, handle {handle}) was accepted; disks={disks[:3]}")
         return out
+    if entry == "hdd" and spec.get("hdd_backup") and not spec.get("benign_first"):
+        out.cls("hdd-backup-only")
+        return out  # the primary descriptor is broken: refusing, or reading a harmless backup, are both fine
     # benign document: must parse as usual
     if err:
         out.fail(err.sig("benign|" + tag), f"document without entity declarations was refused: {err.describe()}")
